@@ -883,7 +883,8 @@ TIERS = {
 ENG_TAG = {"-ei": "interp", "-eg -O0": "gen_O0", "-eg -O2": "gen_O2", "-eg": "gen"}
 POS = {"a1": "arg_first", "a2": "arg_mixed_with_scalars", "a3": "arg_after_int_regs", "a4": "arg_after_sse_regs",
        "a5": "arg_all_regs_used", "a6": "four_aggregate_args", "r": "ret", "r2": "arg_and_ret"}
-K_NC = "abi:classify:nested_aggregate_offset_ignored"
+K_CLS = {"nc": "abi:classify:nested_aggregate_offset_ignored",
+         "zc": "abi:classify:zero_width_bitfield_counts_as_integer"}
 
 
 def tlc_jobs(tier):
@@ -907,8 +908,8 @@ def bv_keys(r, eng, test, v):
         return ["abi:%s:c2m_to_c2m:%s:%s" % (ENG_TAG.get(eng, eng), POS[n], cls) for k, n in enumerate(TESTS)
                 if not isinstance(v, int) or (v >> k) & 1]
     d, n = test.split("_", 1)
-    if r["ccls"] != r["cls"]:
-        return [K_NC]
+    if r["cdev"]:
+        return [K_CLS[f] for f in sorted(r["cdev"])]
     return ["abi:%s:%s:%s:%s" % (ENG_TAG.get(eng, eng), "c2m_to_gcc" if d == "cg" else "gcc_to_c2m", POS[n], cls)]
 
 
@@ -997,7 +998,7 @@ def run(tier, mutate=None, only=None):
                     ck.violation(k, text, case)
             for x in rows:
                 if not x["alts"]:
-                    groups[(tuple(x["cls"]), tuple(x["ccls"]), x["sz"])].setdefault(leaf_sig(x), x)
+                    groups[(tuple(x["cls"]), tuple(sorted(x["cdev"])), x["sz"])].setdefault(leaf_sig(x), x)
             pool = [x for x in rows if x["sz"] <= 32]
             probe_pool += rng.sample(pool, min(len(pool), P["probe"] // len(jobs) + 1))
             pool = [x for x in rows if not x["alts"]]
@@ -1178,7 +1179,7 @@ def selftest():
     bad += not ok
     # (3)
     global _SELFTEST_LIE
-    shapes = [x for x in rows if x["sz"] in (8, 12, 16) and x["cls"] == x["ccls"]][:6]
+    shapes = [x for x in rows if x["sz"] in (8, 12, 16) and not x["cdev"]][:6]
     target = json.dumps(shapes[2]["d"], sort_keys=True)
     _SELFTEST_LIE = lambda x: json.dumps(x["d"], sort_keys=True) == target
     try:
